@@ -61,7 +61,7 @@ ASSUMPTIONS = [
     "asyncio FIFO ready queue is kept; interleavings explored are start instants, sleeps, executor latency, cost",
 ]
 TIERS = {
-    "quick": {"runs": 8000, "chunk": 250},
+    "quick": {"runs": 6400, "chunk": 200},
     "thorough": {"runs": 160000, "chunk": 1000, "chunk_timeout": 1800},
 }
 REACH_PROBES = [
@@ -1016,6 +1016,8 @@ def judge(w: World, scn: dict, st: dict):
                 viol("C11.shared_state_not_shared", {"at": "peek"},
                      f"{where} reads len(shared)={ent.get('sh')!r}; importers appended "
                      f"{shared_model.get((fid, tok), 0)} item(s) to instance {tok}", m["t"])
+            if latest_tok.get(fid) != tok:
+                continue  # a superseded instance reached through somebody's stale binding: its views are consequences
             for via, seen_tok in sorted((ent.get("sees") or {}).items()):
                 g = via.split(".", 1)[0]
                 if tok_owner(seen_tok) != g:
